@@ -502,7 +502,7 @@ func verifSpell(spelled []byte, c byte, afterHex *bool, withTemplateEscapes bool
 
 // verifHeredocForm: the value written as a heredoc: every character of the body stands for
 // itself (backslashes and quotes included), the value is the body with its line ends.
-func verifHeredocForm() {
+func verifHeredocForm(indented bool) {
 	n := 1 + nondet_choice("value-len", verif_bound("heredoc-value-len", 2, 3))
 	var value []byte
 	for i := 0; i < n; i++ {
@@ -519,6 +519,15 @@ func verifHeredocForm() {
 		}
 	}
 	src := append(append([]byte("K = <<EOTX\n"), value...), "\nEOTX\n"...)
+	if indented {
+		// <<- form: every line (and the marker) carries four spaces of indentation, which are
+		// not part of the value; lines are non-blank text here
+		for _, c := range value {
+			verif_assume(c != '\n')
+			verif_assume(c != ' ')
+		}
+		src = append(append([]byte("K = <<-EOTX\n    "), value...), "\n    EOTX\n"...)
+	}
 	f, diags := ParseConfig(src, "p", hcl.Pos{Byte: 0, Line: 1, Column: 1})
 	verifCheckDiags(diags, len(src))
 	verif_assert(!diags.HasErrors(), "a heredoc loads without an error")
@@ -552,9 +561,9 @@ func verifHeredocForm() {
 // spelled the same way, or "${"/"%{" written with the escaped markers "$${"/"%%{") loads
 // without diagnostics and yields exactly the intended string.
 func H_c14_profile_string() {
-	form := nondet_choice("form", 5)
-	if form == 4 {
-		verifHeredocForm()
+	form := nondet_choice("form", 6)
+	if form >= 4 {
+		verifHeredocForm(form == 5)
 		return
 	}
 	n := nondet_choice("value-len", verif_bound("profile-value-len", 2, 3)+1)
